@@ -274,6 +274,9 @@ pub struct PagingModel {
     /// the server never answers the request for this page (0-based) of any search
     #[serde(default)]
     pub stall_at_page: Option<usize>,
+    /// position of the paging control among the response controls (None = last)
+    #[serde(default)]
+    pub paged_ctrl_pos: Option<usize>,
 }
 
 #[derive(Clone, Debug, Default, PartialEq, Serialize, Deserialize)]
